@@ -38,7 +38,8 @@ package compiler
 //@   requires[index-wf] forallval(k, has(c.index, k) ==> int(c.index[k]) < len(c.constants) && c.constants[int(c.index[k])] == k)
 //@   ensures[index-wf] forallval(k, has(c.index, k) ==> int(c.index[k]) < len(c.constants) && c.constants[int(c.index[k])] == k)
 //@   ensures[len] len(r) == 2
-//@   ensures[in-range] int(r[0]) + 256*int(r[1]) < len(c.constants) && len(c.constants) <= 65535 + 1
+//@   requires[limit] len(c.constants) <= 65535
+//@   ensures[in-range] int(r[0]) + 256*int(r[1]) < len(c.constants) && len(c.constants) <= 65535
 //@   ensures[holds] c.constants[int(r[0]) + 256*int(r[1])] == i
 //@   ensures[grows] len(c.constants) >= old(len(c.constants)) && len(c.constants) <= old(len(c.constants)) + 1
 //@   ensures[stable] forall(k, 0, old(len(c.constants)), c.constants[k] == old(c.constants[k]))
